@@ -78,7 +78,7 @@ func (C13) New() any { return &C13Scenario{} }
 
 func (C13) Gen(t *tape.Tape, tier string) any {
 	sc := &C13Scenario{}
-	shapes := []gen.Shape{gen.ShapeFlat, gen.ShapeNested, gen.ShapeLogical}
+	shapes := []gen.Shape{gen.ShapeFlat, gen.ShapeNested, gen.ShapeLogical, gen.ShapeDyn, gen.ShapeGen}
 	sc.Plan = GenWritePlan(t, shapes, 300)
 	if sc.Plan.NRows == 0 {
 		sc.Plan.NRows = 1
